@@ -13,6 +13,7 @@ from .c03 import follow_local, hierarchy_helper, index_reuse_possible
 from .c04 import BIMAP_MUT, HUGR_MUT, LIST_MUT
 from ..paths import summaries
 from ..tmpl import T, tall, tfind, tmatch
+from ..rulekit import unold
 
 BASE = "hugr.hugr.base"
 DERIVED = {"children": "rebuilt by _add_node as the children are copied in order",
@@ -62,6 +63,18 @@ def insert_core(ctx, R1="C08.R1", R2="C08.R2", R3="C08.R3", R4="C08.R4") -> None
                  "state-order links (port -1) are never copied, so the image is not isomorphic to the inserted HUGR", partial[0],
                  expected=f"{src_p}._links.items() / {src_p}.links()", found=u(partial[0].iter))
         return
+    if len(node_loops) == 1 and not link_loops:
+        # the links are copied, but not through add_link: whatever writes the link map directly skips what add_link maintains
+        raw = [l for l in loops if l is not node_loops[0][0] and any(
+            isinstance(c, ast.Call) and isinstance(c.func, ast.Attribute) and c.func.attr in ("insert_left", "insert_right", "__setitem__")
+            and "_links" in u(c.func.value) for c in ast.walk(l)) or any(
+            isinstance(x, ast.Subscript) and isinstance(x.ctx, ast.Store) and "_links" in u(x.value) for x in ast.walk(l))]
+        if raw:
+            ctx.fail(R2, "Hugr.insert_hugr: all links", file, raw[0].lineno,
+                     "the links of the inserted HUGR are written into the link map directly instead of through add_link: the port counts of the "
+                     "copies are not grown to cover the linked offsets and sub-offsets are taken over unchecked, so queries on the image "
+                     "(num_in_ports, incoming_links, delete_node) disagree with the inserted HUGR", raw[0], expected="self.add_link(..)", found=u(raw[0].body[0])[:200])
+            return
     if len(node_loops) != 1 or len(link_loops) != 1:
         ctx.broken("Hugr.insert_hugr: node loop / link loop not found")
     (nl, e0), ll = node_loops[0], link_loops[0]
@@ -84,22 +97,34 @@ def insert_core(ctx, R1="C08.R1", R2="C08.R2", R3="C08.R3", R4="C08.R4") -> None
     ok = all_add = True
     found = []
     seen = {True: False, False: False}
-    for p in summaries(nl.body):
+    # (locals bound before the loop to something pure -- `root_parent = parent or self.root` -- are written in)
+    from .. import norm as _norm
+    pre = [s_ for s_ in (ih.body[: ih.body.index(nl)] if nl in ih.body else []) if isinstance(s_, ast.Assign) and len(s_.targets) == 1
+           and isinstance(s_.targets[0], ast.Name) and _norm.is_pure(s_.value) and not isinstance(s_.value, (ast.Dict, ast.List, ast.Set))]
+    for p in summaries(pre + nl.body):
         if p.kind == "raise":
             continue
-        effs = p.find_effect(f"{mp}[{nv}] = self.add_node(E_op, E_parent, E_outs, E_meta)") or p.find_effect(f"{mp}[{nv}] = self._add_node(E_op, E_parent, E_outs, E_meta)")
+        effs = p.find_effect(f"{mp}[{nv}] = self.add_node(E_op, E_parent, E_outs, E_meta)")
+        low = False
+        if not effs:
+            # the low-level creator does not default a missing parent to the root of the target: the caller has to
+            effs = p.find_effect(f"{mp}[{nv}] = self._add_node(E_op, E_parent, E_outs, E_meta)")
+            low = True
         if len(effs) != 1:
             ok = all_add = False
             found.append("no single add_node on: " + p.describe())
             continue
-        par = effs[0][2]["E_parent"]
+        par = unold(effs[0][2]["E_parent"])
+        defaulted = (f"{par_p} or self.root", f"{par_p} if {par_p} else self.root", f"{par_p} if {par_p} is not None else self.root")
+        roots = defaulted if low else (par_p,) + defaulted
         t = [k for t_, k in p.tests if u(t_) in (f"{dv}.parent", f"{dv}.parent is not None")]
         if t and t[0]:
             good = par == f"{mp}[{dv}.parent]"
         elif t:
-            good = par == par_p
+            good = par in roots
         else:
-            good = par in (f"{mp}[{dv}.parent] if {dv}.parent else {par_p}", f"{mp}[{dv}.parent] if {dv}.parent is not None else {par_p}")
+            good = any(par in (f"{mp}[{dv}.parent] if {dv}.parent else {r_}", f"{mp}[{dv}.parent] if {dv}.parent is not None else {r_}",
+                               f"{mp}[{dv}.parent] if {dv}.parent else ({r_})") for r_ in roots)
             seen[True] = seen[False] = good
         if t:
             seen[t[0]] = seen[t[0]] or good
